@@ -32,6 +32,14 @@ CHECKS = {
    technique="enumeration of routing states × {secured, public} × cors on/off (compiled), all requests of depth <= 3 × methods × token states under middleware stacks of length 0..4; oracle = exact enter/auth/handler/leave trace",
    text="For every C03 template set of the tier with and without a bearer requirement on the first operation and cors on/off, every request (paths <= 3 segments × GET/POST/DELETE(/OPTIONS) × token absent/good/bad, plus the spec-file request) is served under middleware stacks of length 0-4 and with custom/default not-found handler. Routed requests (handler ran, authenticator ran, or 401) must show enter 1..n, [auth], [handler], leave n..1 with every middleware seeing the matched template; unrouted and spec-file requests must show no middleware mark.",
    note="whether the right operation was chosen is C03's business, whether the right operations demand credentials is C11's; OPTIONS answered by the CORS handler is a don't-care"),
+ "C04": dict(engine="batch+drv", ref="§4 C04",
+   technique="enumeration of parameter declaration cells (compiled one package each) × the full lexeme-class × cardinality table per type; oracle = reference lexer / required / cardinality model",
+   text="Every parameter declaration cell (13 leaf kinds × {query scalar, query array, header} × required/optional × {inline, schema $ref, alias, component parameter} × {operation, path-item, operation overriding a differently typed path-item parameter}; quick restricts declaration forms to 5 kinds), every pair of parameters over {int32,string,date-time}×{query,header}×required, and every arrangement of a query and a header parameter sharing one name, is generated and compiled; each is driven with every lexeme of its type table (canonical, boundary, out-of-range, garbage, empty) × cardinality {absent, one, two good, good+bad, bad+good}. Parse() must fail iff the model says so, name the parameter, and otherwise hold exactly the typed values with absent optionals unset.",
+   note="nullable parameters and header arrays are outside the judged space; header lexemes are restricted to visible ASCII without surrounding space; lexemes Go accepts beyond the OpenAPI lexical space are don't-cares"),
+ "C11": dict(engine="batch+drv", ref="§4 C11",
+   technique="exhaustive enumeration of small security configurations (compiled) × all credential states × all authenticator-installed subsets; oracle = reference evaluator of the effective requirement",
+   text="All configurations with two schemes A,B (ordered pairs of bearer / apiKey header / apiKey query, plus unsupported kinds), global in {none,[A],[A,B]}, two operations on the same path or on different paths, each with {inherit, [], [A], [B], [A,B], [A and B]} are generated and compiled (about 1700 quick). Each operation is requested with every combination of absent/valid/invalid credential per scheme under every subset of authenticators installed or nil. The handler must run iff the operation is public or an alternative of its own effective requirement is fully accepted, must see the request returned by an accepting authenticator, otherwise 401 without the handler; no authenticator of an unlisted scheme is consulted; no panic.",
+   note="three operations and more than two schemes are not enumerated; the bearer prefix variants are not part of the credential alphabet; two known findings (conjunction keeps one scheme; all-unsupported requirement becomes public) mask their supersets"),
 }
 NA_REASON = "check not built yet (work in progress; see DESIGN.md §13)"
 def main():
